@@ -25,14 +25,14 @@ func TestVerifC04(t *testing.T) {
 		ID: "C04", Level: "fault_enumeration",
 		Rule:        "10 scenarios (N concurrent single calls; concurrent and sequential ReadAt / WriteTo / WriteAt / ReadFrom mid-transfer; callers that keep issuing requests; raw dispatchRequest ledger) x fault kinds {server->client stream EOF at byte n, error at byte n, k-th client->server Write call fails with the connection reset, k-th Write fails one-sided}; quick: every reply-frame boundary +-1 and a seeded 12% of the interior offsets, thorough: every offset 0..T (streams longer than 2500 bytes: every offset of the first 1200 bytes and a seeded stride after) and every write index. A class is (scenario, fault kind, position bucket); non-trivial when calls were in flight at the moment of the fault.",
 		Assumptions: []string{"'bounded time' is decided as 'no stuck state' (every goroutine parked with nothing able to wake it), not as a latency bound", "the peer is scripted, so which replies were completely delivered before byte n is known exactly", "race detector on"},
-		Units:       func(tier vfTier, seed uint64) int { return 10 * 4 },
+		Units:       func(tier vfTier, seed uint64) int { return 11 * 7 },
 		Shards: func(tier vfTier) int {
 			if tier == vfThorough {
 				return 15
 			}
 			return 12
 		},
-		Floors: map[string]int64{"fault_runs": 1200, "runs_with_calls_in_flight": 400, "ledger_channels_checked": 2000, "scenarios": 10},
+		Floors: map[string]int64{"fault_runs": 1200, "runs_with_calls_in_flight": 400, "ledger_channels_checked": 2000, "scenarios": 11},
 		Run:    c04Run,
 	})
 }
@@ -139,6 +139,25 @@ func c04Scenarios() []c04Scenario {
 		{"WriteAt-conc", con, transfer("WriteAt", writeAt)},
 		{"ReadFrom-conc", con, transfer("ReadFrom", readFrom)},
 		{"ReadFrom-seq", seq, transfer("ReadFrom", readFrom)},
+		{"shutdown-race-many-inflight", nil, func(c *Client, lost *atomic.Bool) []c04Result {
+			// thousands of requests are outstanding (the peer never answers /hold/ paths), so notifying
+			// them takes the receiver a while; meanwhile other goroutines keep starting calls
+			const nHeld = 3000
+			held := make([]chan result, nHeld)
+			for i := range held {
+				held[i] = make(chan result, 4)
+				c.clientConn.dispatchRequest(held[i], &sshFxpStatPacket{ID: c.nextID(), Path: fmt.Sprintf("/hold/%d", i)})
+			}
+			out := par(8, func(g int) []c04Result {
+				var out []c04Result
+				for i := 0; i < 40; i++ {
+					out = append(out, c04Stat(c, uint64(g)*1000+uint64(i)*3+5, lost))
+				}
+				return out
+			})
+			c04Held = held // judged after Close (by then the receiver has finished notifying)
+			return out
+		}},
 		{"mixed", con, func(c *Client, lost *atomic.Bool) []c04Result {
 			return par(4, func(g int) []c04Result {
 				switch g {
@@ -157,6 +176,9 @@ func c04Scenarios() []c04Scenario {
 		}},
 	}
 }
+
+// c04Held: result channels of the never-answered requests of the shutdown-race scenario of the current run.
+var c04Held []chan result
 
 type c04Fault struct {
 	kind string // s2c-eof, s2c-error, c2s-reset, c2s-writefail
@@ -196,6 +218,9 @@ func c04RunOnce(u *vfUnit, sc c04Scenario, fault *c04Fault, hookSeed uint64) c04
 	fr := &c04Frames{req: map[uint32]string{}}
 	obs.frames = fr
 	peer := &vfPeer{Handler: func(req vfPkt, raw []byte) []byte {
+		if strings.HasPrefix(req.Path, "/hold/") {
+			return nil // never answered
+		}
 		if req.Type == rfReaddir || req.Type == rfOpendir {
 			if req.Type == rfOpendir {
 				return vfPkt{Type: rfHandle, ID: req.ID, Handle: "dh"}.Frame()
@@ -247,6 +272,20 @@ func c04RunOnce(u *vfUnit, sc c04Scenario, fault *c04Fault, hookSeed uint64) c04
 			ctl.CutAfter(vfS2C, handshake+fault.pos, nil, onCut)
 		case "s2c-error":
 			ctl.CutAfter(vfS2C, handshake+fault.pos, errVfCut, onCut)
+		case "s2c-eof-writer-survives":
+			// the reply stream ends, but the transport's write half keeps accepting writes even after Close
+			ce.NoClose = true
+			ctl.CutAfter(vfS2C, handshake+fault.pos, nil, onCut)
+		case "c2s-reset-ioEOF", "c2s-writefail-ioEOF":
+			// like an ssh channel: a write on a closed channel fails with io.EOF
+			k := fault.kind
+			ctl.FailWrite(vfC2S, int(fault.pos), io.EOF, func() {
+				lost.Store(true)
+				fired.Store(true)
+				if k == "c2s-reset-ioEOF" {
+					ctl.CutAfter(vfS2C, 0, errVfCut, nil)
+				}
+			})
 		case "c2s-reset":
 			ctl.FailWrite(vfC2S, int(fault.pos), errVfCut, func() {
 				lost.Store(true)
@@ -278,7 +317,7 @@ func c04RunOnce(u *vfUnit, sc c04Scenario, fault *c04Fault, hookSeed uint64) c04
 	})
 	if w, dump := vfAwait(done, 120*time.Second); w != vfDone {
 		obs.stuck = fmt.Sprintf("%v\n%s", w, vfTrim(dump, 3500))
-		ce.Close()
+		ce.ForceClose()
 		peer.Stop()
 		return obs
 	}
@@ -308,11 +347,11 @@ func c04RunOnce(u *vfUnit, sc c04Scenario, fault *c04Fault, hookSeed uint64) c04
 		})
 		if w, dump := vfAwait(ldone, 120*time.Second); w != vfDone {
 			obs.stuck = fmt.Sprintf("a call started after the connection loss does not return (%v)\n%s", w, vfTrim(dump, 3000))
-			ce.Close()
+			ce.ForceClose()
 			peer.Stop()
 			return obs
 		}
-		if fault.kind != "c2s-writefail" {
+		if fault.kind != "c2s-writefail" && fault.kind != "c2s-writefail-ioEOF" {
 			// (with a one-sided write failure the read side of the transport is still alive:
 			// Wait legitimately blocks until Close)
 			wdone := vfGo(func() { c.Wait() })
@@ -333,15 +372,20 @@ func c04RunOnce(u *vfUnit, sc c04Scenario, fault *c04Fault, hookSeed uint64) c04
 	}
 	if w, dump := vfAwait(cdone, 120*time.Second); w != vfDone {
 		obs.closeStuck = fmt.Sprintf("%v\n%s", w, vfTrim(dump, 2500))
-		ce.Close()
+		ce.ForceClose()
 	}
 	if !peerStopped {
 		peer.Stop()
 	}
-	ce.Close()
+	ce.ForceClose()
 	for _, ch := range chans {
 		obs.ledger = append(obs.ledger, len(ch))
 	}
+	for _, ch := range c04Held {
+		// after Close every request that never got a reply must have been notified exactly once
+		obs.ledger = append(obs.ledger, len(ch))
+	}
+	c04Held = nil
 	obs.leaks = base.Leaks()
 	return obs
 }
@@ -350,7 +394,7 @@ func c04Run(u *vfUnit) {
 	r := u.Rng
 	scs := c04Scenarios()
 	sc := scs[u.Index%len(scs)]
-	kind := []string{"s2c-eof", "s2c-error", "c2s-reset", "c2s-writefail"}[(u.Index/len(scs))%4]
+	kind := []string{"s2c-eof", "s2c-error", "c2s-reset", "c2s-writefail", "c2s-reset-ioEOF", "c2s-writefail-ioEOF", "s2c-eof-writer-survives"}[(u.Index/len(scs))%7]
 	u.SetAdd("scenarios", sc.name)
 	dry := c04RunOnce(u, sc, nil, r.Uint64())
 	label0 := sc.name + "/no-fault"
